@@ -1226,6 +1226,15 @@ func checkLiteralFidelity(r *Run, ga *GA) {
 			}
 			return true
 		})
+		if !(okAll && nret > 0) && ga.prog.SSA != nil {
+			// not written as one return statement: decided on the paths of the compiled action (the pair Unquote returned,
+			// handed on through locals)
+			if okP, whyP := stringLiteralActionOnPaths(ga.prog, u.fd.Name.Name); okP {
+				okAll, nret = true, 1
+			} else if whyP != "" {
+				why = why + "; on paths: " + whyP
+			}
+		}
 		r.Check("c16.string-literal-unquote", "action:"+u.fd.Name.Name, ga.prog.pos(u.fd.Pos()), okAll && nret > 0, why)
 		// the action spans both delimiters: its expression is a choice/sequence that starts and ends with the same quote literal
 		spans := true
@@ -1794,4 +1803,43 @@ func checkMatchedTextActions(r *Run, prog *Program, rule string) {
 		}
 	}
 	r.Check("c16.value-raw", "matched-text:"+rule+":census", "grammar/grammar.go", n >= 1, "no value action found for rule "+rule)
+}
+
+// stringLiteralActionOnPaths: every return of the named action hands out the two results of one call
+// strconv.Unquote(string(c.text)), value and error, unchanged.
+func stringLiteralActionOnPaths(prog *Program, name string) (bool, string) {
+	var fn *ssa.Function
+	for _, f := range prog.ModuleFuncs() {
+		if f.Pkg == prog.GrammarSSA && f.Name() == name && f.Signature.Recv() != nil && namedIs(f.Signature.Recv().Type(), grammarPath, "current") {
+			fn = f
+		}
+	}
+	if fn == nil || len(fn.Params) == 0 {
+		return false, "action not found"
+	}
+	text := (&Sym{K: sLoad, A: &Sym{K: sFieldAddr, A: paramSym(fn.Params[0]), Str: "text"}}).Key()
+	ps := NewPathSim(prog)
+	n := 0
+	for _, sm := range ps.Run(fn) {
+		if sm.Ret == nil || len(sm.Results) != 2 {
+			return false, "a path without a (value, error) return"
+		}
+		n++
+		v, e := sm.Results[0], sm.Results[1]
+		if e.K != sRes || e.Idx != 1 || e.A == nil {
+			return false, "the error returned is " + shortKey(e) + ", not the one strconv.Unquote gave"
+		}
+		cf, call := calleeOfSym(e.A)
+		if call == nil || !isCallTo(cf, "strconv", "Unquote") {
+			return false, "the error returned is not strconv.Unquote's"
+		}
+		args := symArgs(sm.St, e.A)
+		if len(args) != 1 || !(args[0].K == sConvert && args[0].A != nil && args[0].A.Key() == text) {
+			return false, "strconv.Unquote is not applied to string(c.text)"
+		}
+		if !(v.K == sMkIface && v.A != nil && v.A.K == sRes && v.A.Idx == 0 && v.A.A != nil && v.A.A.Key() == e.A.Key()) {
+			return false, "the value returned is " + shortKey(v) + ", not what strconv.Unquote gave"
+		}
+	}
+	return n > 0, ""
 }
